@@ -78,10 +78,13 @@ class Scenario:
             self.flags = []
             self.set_version = r.choice(["greater", "equal", "lower", "malformed", "pep_equal"])
         self.commit_message = r.choice([None, None, "bump {old_version} -> {new_version}", "it's a bump to {new_version}", 'say "hi" OLD -> NEW', "a' --amend '", "release {version} (unknown placeholder)"])
+        # --tag-message: absent (configured template), empty (lightweight tag) or a template of its own
+        self.tag_message = r.choice([None, None, None, "", "release {new_version}", "NEW after OLD"])
         # the configured template may contain the words OLD/NEW: the shorthand is a command-line feature only
         self.cfg_commit_message = r.choice(["bump version {old_version} -> {new_version}", "bump version {old_version} -> {new_version}", "Brand NEW release {new_version}, OLD one was {old_version}"])
         self.nfiles = r.randint(1, 4)
         self.files = {}
+        self.sep_of = {}
         self.occ = {}  # file -> list of (line index, kind)
         self.file_patterns = {}
         names = ["src/mod.py", "README.md", "docs/conf.py", "notes.txt", "setup.py"]
@@ -92,7 +95,7 @@ class Scenario:
             lines = [f"# file {fn} line 0 ünïcode", "unrelated = one.two-three"]
             if r.random() < 0.3:
                 # characters str.splitlines() would split on, a BOM, a stray CR / LF of the *other* style
-                lines[0] = r.choice(["\ufeff", ""]) + lines[0] + r.choice([" form\x0cfeed", " vt\x0btab", " ls\u2028sep", " nel\x85", " fs\x1c", " lone\rCR" if self.sep == "\r\n" else " x"])
+                lines[0] = r.choice(["\ufeff", ""]) + lines[0] + r.choice([" form\x0cfeed", " vt\x0btab", " ls\u2028sep", " nel\x85", " fs\x1c", " x"])
             occ = []
             pats = []
             same_line = npat == 2 and r.random() < 0.25
@@ -125,12 +128,21 @@ class Scenario:
             if "version" in kinds and "quoted" in kinds:
                 kinds = None
             self.files[fn] = lines
+            # most projects use one line-ending style; some files (pasted in, generated) use another one
+            self.sep_of[fn] = self.sep if r.random() < 0.7 else r.choice(["\n", "\r\n", "\r"])
+            if self.sep_of[fn] == "\r\n" and r.random() < 0.15:
+                lines[0] = lines[0] + " lone\rCR"  # a stray CR inside a line of a CRLF file
             self.occ[fn] = occ
             self.file_patterns[fn] = pats
             self.kinds_ok = kinds is not None
         # config spelling of the file entries: plain path, a glob, or two entries for one file
         self.split_entries = {fn: r.choice(["explicit_first", "glob_first"]) for fn in sorted(self.files) if r.random() < 0.3}
         self.globs = {fn: r.choice(GLOB_CHOICES[fn]) for fn in sorted(self.files)}  # recursive globs, ./ prefixes, doubled slashes
+        # a section of another tool with a current_version line of its own (one that no generated pattern matches) in
+        # front of bumpver's section
+        self.foreign_section = r.random() < 0.2
+        # the config file's own current_version line: listed explicitly, or left to the implicit default pattern
+        self.implicit_self_pattern = r.random() < 0.5
         self.fault = r.choice([None, None, None, "nomatch", "missing", "nomatch_one"])
         self.fault_file = r.choice(sorted(self.files)) if self.fault else None
         if self.fault == "nomatch_one":
@@ -181,7 +193,8 @@ class Scenario:
         for fn, lines in self.files.items():
             path = os.path.join(d, fn)
             os.makedirs(os.path.dirname(path), exist_ok=True)
-            content = self.sep.join(self.render(lines, self.current)) + (self.sep if self.final_newline else "")
+            sep = self.sep_of.get(fn, self.sep)
+            content = sep.join(self.render(lines, self.current)) + (sep if self.final_newline else "")
             if self.fault == "nomatch" and fn == self.fault_file:
                 content = content.replace(self.current, "X.Y.Z").replace(self._pep(self.current), "X.Y.Z")
             if not (self.fault == "missing" and fn == self.fault_file):
@@ -210,7 +223,7 @@ class Scenario:
                 os.chmod(hp, 0o755)
                 hooks += f'{name} = "{name}.sh"\n'
         cfg = (
-            "[bumpver]\n"
+            ("[bumpversion]\ncurrent_version = \"9.9.9-foreign\"\ncommit = true\n\n" if self.foreign_section else "") + "[bumpver]\n"
             f'current_version = "{self.current}"\n'
             f'version_pattern = "{self.pattern}"\n'
             f'commit_message = "{self.cfg_commit_message}"\n'
@@ -221,7 +234,7 @@ class Scenario:
             f"tag = {'true' if self.tag else 'false'}\n"
             f"push = {'true' if self.push else 'false'}\n"
             "\n[bumpver.file_patterns]\n"
-            '"bumpver.toml" = [\'current_version = "{version}"\']\n' + "\n".join(fp_lines) + "\n"
+            + ("" if self.implicit_self_pattern else '"bumpver.toml" = [\'current_version = "{version}"\']\n') + "\n".join(fp_lines) + "\n"
         )
         with open(os.path.join(d, "bumpver.toml"), "w", encoding="utf-8", newline="") as fh:
             fh.write(cfg)
@@ -242,6 +255,8 @@ class Scenario:
             a += ["--tag-scope", self.cli_scope]
         if self.commit_message is not None:
             a += ["--commit-message", self.commit_message]
+        if getattr(self, "tag_message", None) is not None:
+            a += ["--tag-message", self.tag_message]
         if self.set_version is not None:
             a += ["--set-version", self._target()]
         return a
@@ -309,9 +324,9 @@ def plain_scenario(**over):
     given attributes overridden: for directed cases that must not depend on the luck of a seed."""
     sc = Scenario(0)
     sc.pattern, sc.current = "MAJOR.MINOR.PATCH", "0.1.9"
-    sc.sep, sc.final_newline = "\n", True
+    sc.sep, sc.final_newline, sc.sep_of = "\n", True, {}
     sc.commit, sc.tag, sc.push, sc.dry = True, True, False, False
-    sc.flags, sc.set_version, sc.commit_message = ["--patch"], None, None
+    sc.flags, sc.set_version, sc.commit_message, sc.tag_message = ["--patch"], None, None, None
     sc.cfg_commit_message = "bump version {old_version} -> {new_version}"
     sc.nfiles = 2
     sc.files = {"src/mod.py": ["# module", '__version__ = "\x01"', "tail"], "notes.txt": ["notes", "release \x01 here", 'pep = "\x02"']}
@@ -319,7 +334,7 @@ def plain_scenario(**over):
     sc.file_patterns = {"src/mod.py": ['__version__ = "{version}"'], "notes.txt": ["release {version} here", 'pep = "{pep440_version}"']}
     sc.kinds_ok = True
     sc.split_entries, sc.globs = {}, {fn: GLOB_CHOICES[fn][0] for fn in sc.files}
-    sc.fault, sc.fault_file = None, None
+    sc.fault, sc.fault_file, sc.foreign_section, sc.implicit_self_pattern = None, None, False, False
     sc.tags, sc.scope, sc.cli_scope, sc.conflict = [], "default", None, False
     sc.dirty, sc.allow_dirty, sc.fail_cmd, sc.pre_hook, sc.post_hook = "", False, None, None, None
     for k, v in over.items():
@@ -396,6 +411,7 @@ def check_scenario(seed, keep_dir=False, sc=None):
             if (sc.dry or rewrite_failed) and mutating:
                 res["C06" if not sc.dry else "C13"] = f"exit {rc} but VCS commands ran: {mutating[:2]}"
         # ---- C03 / C04: successful real run rewrote exactly the occurrences
+        mismatch_files = []
         if rc == 0 and not sc.dry and new is not None and sc.kinds_ok:
             written = new
             m_cfg = re.search(r'current_version = "([^"]*)"', after.get("bumpver.toml", b"").decode("utf-8", "replace"))
@@ -409,14 +425,18 @@ def check_scenario(seed, keep_dir=False, sc=None):
             announced, new = new, written
             for fn, lines in sc.files.items():
                 exp = sc.render(lines, new)
-                want = (sc.sep.join(exp) + (sc.sep if sc.final_newline else "")).encode("utf-8")
+                sep = sc.sep_of.get(fn, sc.sep)
+                want = (sep.join(exp) + (sep if sc.final_newline else "")).encode("utf-8")
                 got = after.get(fn)
                 if got is None or _pep_spelling(got) != _pep_spelling(want):
                     same_line = len({li for li, _ in sc.occ[fn]}) < len(sc.occ[fn])
                     res["C03" if same_line or got is None or sc.current.encode() in got else "C04"] = f"{fn}: content after update differs from expectation (same-line occurrences: {same_line})"
+                    mismatch_files.append(fn)
             cfgtxt = after.get("bumpver.toml", b"").decode("utf-8")
             if f'current_version = "{new}"' not in cfgtxt:
                 res["C03"] = "config current_version not updated"
+            if sc.foreign_section and 'current_version = "9.9.9-foreign"' not in cfgtxt:
+                res["C04"] = "the current_version line of a foreign section ([bumpversion]) was rewritten"
             new = announced
         # ---- C10 / C12: order and arguments of VCS steps on a real run
         if not sc.dry:
@@ -441,6 +461,18 @@ def check_scenario(seed, keep_dir=False, sc=None):
                         want_msg = None
                     if want_msg is not None and commits[0] != ["commit", "--message", want_msg]:
                         res["C12"] = f"commit argv {commits[0]!r} != ['commit', '--message', {want_msg!r}]"
+                tag_calls = [c for c in calls if c and c[0] == "tag" and "--list" not in c]
+                if sc.tag and tag_calls:
+                    cli_tm = getattr(sc, "tag_message", None)
+                    ttmpl = "{new_version}" if cli_tm is None else re.sub(r"\b(OLD|NEW)\b", r"{\1_VERSION}", cli_tm)
+                    try:
+                        tmsg = ttmpl.format(new_version=new, old_version=old, NEW_VERSION=new, OLD_VERSION=old, new_version_pep440=sc._pep(new), old_version_pep440=sc._pep(old))
+                    except Exception:
+                        tmsg = None
+                    if tmsg is not None:
+                        want_tag = ["tag", "--annotate", new, "--message", tmsg] if tmsg else ["tag", new]
+                        if tag_calls[0] != want_tag:
+                            res["C12"] = f"tag argv {tag_calls[0]!r} != {want_tag!r}"
                 added = sorted(c[-1] for c in calls if c and c[0] == "add")
                 if added != sorted(list(sc.files) + ["bumpver.toml"]):
                     res["C12"] = f"staged paths {added}"
@@ -477,6 +509,9 @@ def check_scenario(seed, keep_dir=False, sc=None):
                     missing = [x for x in need if _pep_spelling(x) not in shown]
                     if missing:
                         res["C13"] = f"--dry output does not show {missing[0]!r} as a line of the diff of {fn}"
+            if "C13" not in res and mismatch_files and not sc.dry:
+                # the printed diff shows the expected lines, the real run with the same arguments wrote something else
+                res["C13"] = f"--dry announced the expected change of {mismatch_files[0]} but the real run wrote different content"
         # ---- C13: dry exit 0 => real run's rewrite phase succeeds
         if rc_dry == 0 and not sc.dry and sc.fault is None:
             if rc != 0 and not (sc.fail_cmd or sc.pre_hook in ("fail", "signal") or sc.post_hook in ("fail", "signal") or (bool(sc.dirty) and not sc.dirty.startswith("??") and not sc.allow_dirty)):
